@@ -264,6 +264,11 @@ def process_config(job):
                         else:
                             r = smt.check_equal_many(ctx, sym_pairs, pathcond, timeout_s=job['qtimeout'],
                                                      want_smt2=job.get('want_smt2', False) and not res['samples'])
+                            if r['status'] == 'sat':
+                                # cyclotomic vs radical representation of the same constants: retry on the algebraic form
+                                r2 = smt.check_equal_many(ctx, sym_pairs, pathcond, timeout_s=job['qtimeout'], algebraic_roots=True)
+                                if r2['status'] == 'unsat':
+                                    r = r2
                             rec.update(status=r['status'], n_components=r['n_components'],
                                        syntactic_mismatch=r['syntactic_mismatch'], time_s=round(r['time_s'], 4),
                                        atoms=r['atoms'])
